@@ -31,7 +31,7 @@ func vCodecDecImpl(b []byte) (out string) {
 func TestVerifC01Codec(t *testing.T) {
 	model := vStartModel(t)
 	defer model.Close()
-	res := vNewResult("C01", "[codec] encode(m) byte-compared with the Lean codec for key/value classes nil/empty/1B/40B/300B x headers none/one (value nil/empty/short, key up to 32767 bytes); "+
+	res := vNewResult("C01", "[codec] encode(m) byte-compared with the Lean codec for key/value classes nil/empty/1B/40B/300B x headers none/one (value nil/empty/short, key up to 32767 bytes); 2-4 headers with every combination of nil / empty / short / longer values (round trip on the implementation); "+
 		"SerializedMessage accessors vs the model's decoder on those encodings, on every single-byte truncation and on single-byte mutations of them, and on random byte strings (panics included); "+
 		"round-trip oracle on the implementation (Key/Value/Headers of encode(m) equal m, CRC matches); non-trivial = decodes without panic; distinct by input")
 	defer res.Write(t)
@@ -97,6 +97,41 @@ func TestVerifC01Codec(t *testing.T) {
 		}
 		if !same {
 			res.Fail(vFailure{Kind: "spec", Case: []string{line}, Detail: fmt.Sprintf("stored %d headers, read back %d", n, len(got)), Tag: "codec-roundtrip-headers"})
+		}
+	}
+	// SEVERAL headers, every combination of nil / empty / short / longer values over 2-4 headers (round trip on the
+	// implementation; a map has no order, so every set is encoded a few times): what comes after a header must not depend on
+	// that header's value being nil
+	hvals := [][]byte{nil, {}, []byte("v"), []byte("a longer header value")}
+	for n := 2; n <= 4; n++ {
+		total := 1
+		for i := 0; i < n; i++ {
+			total *= len(hvals)
+		}
+		for code := 0; code < total; code++ {
+			hs := make(map[string][]byte, n)
+			c := code
+			for i := 0; i < n; i++ {
+				hs[fmt.Sprintf("hdr%d", i)] = hvals[c%len(hvals)]
+				c /= len(hvals)
+			}
+			line := fmt.Sprintf("codec roundtrip multi-headers %s", vShowHdrs(hs))
+			res.Count(line, true)
+			res.Dist(fmt.Sprintf("codec:%d-headers", n))
+			for rep := 0; rep < 3; rep++ {
+				b, err := encode(&Message{MagicByte: 1, Key: []byte("k"), Value: []byte("v"), Headers: hs})
+				if err != nil {
+					res.Fail(vFailure{Kind: "spec", Case: []string{line}, Detail: "encode: " + err.Error(), Tag: "codec-roundtrip-headers"})
+					break
+				}
+				got := vCodecDecImpl(b)
+				want := fmt.Sprintf("ok %s %s %s", vShowBytes([]byte("k")), vShowBytes([]byte("v")), vShowHdrs(hs))
+				if got != want {
+					res.Fail(vFailure{Kind: "spec", Case: []string{line}, Impl: []string{got}, Model: []string{want}, Tag: "codec-roundtrip-headers",
+						Detail: "a stored message must read back with exactly the headers it was stored with (nil and empty values told apart); stored bytes: " + vShowBytes(b)})
+					break
+				}
+			}
 		}
 	}
 	ans := model.Ask(encLines)
